@@ -15,7 +15,7 @@ UNITS = {
     'ser': dict(module='units.ser', rlimit=150, timeout=600),
     'event': dict(module='units.event', rlimit=200, timeout=900, expand=False),
     'reader': dict(module='units.reader', rlimit=200, timeout=900),
-    'startend': dict(module='units.startend', rlimit=150, timeout=600),
+    'startend': dict(module='units.startend', rlimit=150, timeout=600, expand=False),
     'hash': dict(module='units.hash', rlimit=50, timeout=300),
     'rollback': dict(module='units.rollback', rlimit=50, timeout=300),
 }
@@ -87,7 +87,8 @@ PROPS = {
         kani=[],
     ),
     'C13': dict(
-        units=[('codec_mut', r'(transpose_one)'), ('codec_imm', r'(transpose_one)')],
+        units=[('codec_mut', r'(transpose_one)'), ('codec_imm', r'(transpose_one)'),
+               ('event', r'(transpose_one|frame__view|C13)'), ('ser', r'(transpose_one|frame__view|C13)')],
         kani=[],
     ),
 }
